@@ -12,7 +12,7 @@ import traceback
 import scratch
 from scratch import Undecided, VERIF
 
-KANI_PROPS = ["C01", "C02", "C03", "C04", "C05", "C06", "C07", "C08", "C09", "C16", "C19"]
+KANI_PROPS = ["C01", "C02", "C03", "C04", "C05", "C06", "C07", "C08", "C09", "C14", "C16", "C19"]
 VERUS_PROPS = ["C04", "C05", "C07", "C08", "C09", "C12", "C14", "C16", "C17", "C18"]
 CLAIMED = ["C01", "C02", "C03", "C04", "C05", "C06", "C07", "C08", "C09", "C12", "C14", "C16", "C17", "C18", "C19"]
 
